@@ -592,3 +592,5 @@ REWRITES.append(Rewrite("dilator-stop-chain-first", MGR, "            try:\n    
 MUTANTS.append(Mutant("versions-set-of-raw-json", MGR, "    if not isinstance(their_versions, (list, tuple)):\n        their_versions = []\n    their_dilation_versions = {v for v in their_versions if isinstance(v, str)}\n",
                       "    their_dilation_versions = set(their_versions)\n", "C17.R13", "finding F20 put back"))
 MUTANTS.append(Mutant("versions-logged-with-join", MGR, "    # dilation_version is the best mutually-compatible version we have\n", "    if best_version is None:\n        log.msg(\"nothing in common with [%s]\" % \", \".join(their_versions))\n    # dilation_version is the best mutually-compatible version we have\n", "C17.R13", "seed C17-14"))
+
+MUTANTS.append(Mutant("untracked-retry", "src/wormhole/_dilation/connector.py", "        d.addErrback(lambda f: f.trap(DNSLookupError))\n        d.addErrback(log.err)\n        self._pending_connectors.add(d)\n", "        d.addErrback(lambda f: f.trap(DNSLookupError))\n        d.addErrback(log.err)\n        self._pending_connectors.add(d)\n        d2 = deferLater(self._reactor, delay + 1.0, self._connect, ep, desc, is_relay)\n        d2.addErrback(log.err)\n", "C17.R14", "seed C17-18"))
